@@ -86,7 +86,7 @@ func (s OAEPSession) String() string {
 func (s *OAEPSession) Parameter(rand io.Reader, ownerKey *rsa.PublicKey) ([]byte, error) {
 	// Create a random parameter
 	x := make([]byte, s.paramSize)
-	if _, err := rand.Read(x); err != nil {
+	if _, err := io.ReadFull(rand, x); err != nil {
 		return nil, err
 	}
 
